@@ -55,6 +55,30 @@ def _member(E, v):
 _code = core.std_code    # int(decoded value), after `decoded == E.NAME  <=>  the code is the standard's code for NAME`
 
 
+# ---------------------------------------------------------------- the form of each argument (case key "forms", core.code_form)
+# `a` is the op line or a nested object description (`held`, `a`, `b`); its "forms" key names, per argument, the Python form in
+# which the argument is handed to the library: codes as 'member' (default) / 'int' / 'other' (member of a foreign IntEnum),
+# octets as 'bytes' (default) / 'bytearray'; "type_via": 'setter' builds the generic TLV with another type and assigns the
+# type through the `tlv_type` setter. The Lean ops do not read the key: the values are the same, so are the answers.
+def _f(a, key):
+    f = a.get("forms")
+    return f.get(key) if f else None
+
+
+def _arg(E, a, key):
+    f = a.get("forms")
+    return core.code_form(E, a[key], f.get(key)) if f else core.std_member(E, a[key])
+
+
+def _arg_member(E, a, key):
+    return core.code_form(E, a[key], _f(a, key), strict=True)
+
+
+def _oct(a, key):
+    f = a.get("forms")
+    return core.octets_form(unhx(a[key]), f.get(key)) if f else unhx(a[key])
+
+
 def _name(h: str) -> str:
     try:
         return unhx(h).decode()
@@ -94,12 +118,12 @@ def _lv_fields(l: CfdpLv):
 
 
 def op_lv_new(a):
-    return _lv_fields(CfdpLv(unhx(a["value"])))
+    return _lv_fields(CfdpLv(_oct(a, "value")))
 
 
 def op_lv_pack(a):
     v = unhx(a["value"])
-    l = CfdpLv(v)
+    l = CfdpLv(_oct(a, "value"))
     raw = _pack_checked(l)
     for sfx in (b"", SUFFIX):
         l2 = CfdpLv.unpack(raw + sfx)
@@ -111,7 +135,7 @@ def op_lv_pack(a):
 
 def op_lv_unpack(a):
     raw = unhx(a["raw"])
-    l = CfdpLv.unpack(raw)
+    l = CfdpLv.unpack(_oct(a, "raw"))
     # items decoded by earlier calls must still show what they showed then
     f = core.ISOLATION.check("CfdpLv", l, _lv_fields)
     _need(_pack_checked(l) == raw[: l.packet_len], "pack(unpack(b)) != b[:packet_len]")
@@ -125,7 +149,13 @@ def _tlv_fields(t):
 
 
 def _generic(a) -> CfdpTlv:
-    return CfdpTlv(_enum(TlvType, a["type"]), unhx(a["value"]))
+    ty, val = _arg(TlvType, a, "type"), _oct(a, "value")
+    if _f(a, "type_via") == "setter" and a["type"] in TLV_TYPES:
+        # built with ANOTHER TLV type (the next one of the table), the type then assigned through the documented setter
+        t = CfdpTlv(_enum(TlvType, TLV_TYPES[(TLV_TYPES.index(a["type"]) + 1) % len(TLV_TYPES)]), val)
+        t.tlv_type = ty
+        return t
+    return CfdpTlv(ty, val)
 
 
 def op_tlv_new(a):
@@ -145,7 +175,7 @@ def op_tlv_pack(a):
 
 def op_tlv_unpack(a):
     raw = unhx(a["raw"])
-    t = CfdpTlv.unpack(raw)
+    t = CfdpTlv.unpack(_oct(a, "raw"))
     f = core.ISOLATION.check("CfdpTlv", t, _tlv_fields)
     _need(_pack_checked(t) == raw[: t.packet_len], "pack(unpack(b)) != b[:packet_len]")
     _detached(CfdpTlv.unpack, raw, _tlv_fields, "CfdpTlv.unpack", t)
@@ -163,7 +193,7 @@ def _wrap_out(o, cls):
 def op_tlv_w_pack(a):
     cls = WRAP[a["cls"]]
     v = unhx(a["value"])
-    o = cls(v)
+    o = cls(_oct(a, "value"))
     out = _wrap_out(o, cls)
     raw = unhx(out["raw"])
     for sfx in (b"", SUFFIX):
@@ -177,7 +207,7 @@ def op_tlv_w_pack(a):
 def op_tlv_w_unpack(a):
     cls = WRAP[a["cls"]]
     raw = unhx(a["raw"])
-    o = cls.unpack(raw)
+    o = cls.unpack(_oct(a, "raw"))
     core.ISOLATION.check(cls.__name__, o, _tlv_fields)
     out = _wrap_out(o, cls)
     _need(unhx(out["raw"]) == raw[: out["packet_len"]], "pack(unpack(b)) != b[:packet_len]")
@@ -193,7 +223,7 @@ def op_tlv_w_from_tlv(a):
 
 
 def op_tlv_msg_reserved(a):
-    return {"reserved": bool(MessageToUserTlv(unhx(a["value"])).is_reserved_cfdp_message())}
+    return {"reserved": bool(MessageToUserTlv(_oct(a, "value")).is_reserved_cfdp_message())}
 
 
 # ---------------------------------------------------------------- fault handler override
@@ -217,7 +247,7 @@ def _fh_out(o):
 
 
 def op_tlv_fh_pack(a):
-    o = FaultHandlerOverrideTlv(_enum(ConditionCode, a["cc"]), _enum(FaultHandlerCode, a["hc"]))
+    o = FaultHandlerOverrideTlv(_arg(ConditionCode, a, "cc"), _arg(FaultHandlerCode, a, "hc"))
     out = _fh_out(o)
     raw = unhx(out["raw"])
     if a["cc"] < 16 and a["hc"] < 16:
@@ -229,7 +259,7 @@ def op_tlv_fh_pack(a):
 
 def op_tlv_fh_unpack(a):
     raw = unhx(a["raw"])
-    o = _fh_decoded(FaultHandlerOverrideTlv.unpack(raw))
+    o = _fh_decoded(FaultHandlerOverrideTlv.unpack(_oct(a, "raw")))
     out = _fh_out(o)
     _need(unhx(out["raw"]) == raw[: out["packet_len"]], "pack(unpack(b)) != b[:packet_len]")
     _detached(FaultHandlerOverrideTlv.unpack, raw, _fh_fields, "FaultHandlerOverrideTlv.unpack", o)
@@ -242,7 +272,7 @@ def op_tlv_fh_from_tlv(a):
 
 # ---------------------------------------------------------------- filestore request / response
 def _fsreq(a) -> FileStoreRequestTlv:
-    return FileStoreRequestTlv(_enum(FilestoreActionCode, a["action"]), _name(a["first"]), _name(a["second"]))
+    return FileStoreRequestTlv(_arg(FilestoreActionCode, a, "action"), _name(a["first"]), _name(a["second"]))
 
 
 def _fsreq_fields(o):
@@ -293,7 +323,7 @@ def _declared_len_check(o, raw):
 
 def op_tlv_fsreq_unpack(a):
     raw = unhx(a["raw"])
-    o = _fsreq_decoded(FileStoreRequestTlv.unpack(raw))
+    o = _fsreq_decoded(FileStoreRequestTlv.unpack(_oct(a, "raw")))
     _declared_len_check(o, raw)
     out = _fsreq_out(o)
     _detached(FileStoreRequestTlv.unpack, raw, _fsreq_fields, "FileStoreRequestTlv.unpack", o)
@@ -305,8 +335,8 @@ def op_tlv_fsreq_from_tlv(a):
 
 
 def _fsresp(a) -> FileStoreResponseTlv:
-    return FileStoreResponseTlv(_enum(FilestoreActionCode, a["action"]), _enum(FilestoreResponseStatusCode, a["status"]),
-                                _name(a["first"]), _name(a["second"]), CfdpLv(unhx(a["msg"])))
+    return FileStoreResponseTlv(_arg(FilestoreActionCode, a, "action"), _arg(FilestoreResponseStatusCode, a, "status"),
+                                _name(a["first"]), _name(a["second"]), CfdpLv(_oct(a, "msg")))
 
 
 def _fsresp_fields(o):
@@ -353,7 +383,7 @@ def op_tlv_fsresp_pack(a):
 
 def op_tlv_fsresp_unpack(a):
     raw = unhx(a["raw"])
-    o = _fsresp_decoded(FileStoreResponseTlv.unpack(raw))
+    o = _fsresp_decoded(FileStoreResponseTlv.unpack(_oct(a, "raw")))
     _declared_len_check(o, raw)
     out = _fsresp_out(o)
     _detached(FileStoreResponseTlv.unpack, raw, _fsresp_fields, "FileStoreResponseTlv.unpack", o)
@@ -370,9 +400,9 @@ def _build(h):
     if k == "generic":
         return _generic(h)
     if k in WRAP:
-        return WRAP[k](unhx(h["value"]))
+        return WRAP[k](_oct(h, "value"))
     if k == "fault_handler":
-        return FaultHandlerOverrideTlv(_enum(ConditionCode, h["cc"]), _enum(FaultHandlerCode, h["hc"]))
+        return FaultHandlerOverrideTlv(_arg(ConditionCode, h, "cc"), _arg(FaultHandlerCode, h, "hc"))
     if k == "fs_request":
         return _fsreq(h)
     if k == "fs_response":
@@ -411,25 +441,25 @@ def op_tlv_eq(a):
 
 
 def op_tlv_entity_eq(a):
-    return {"eq": bool(EntityIdTlv(unhx(a["a"])) == EntityIdTlv(unhx(a["b"])))}
+    return {"eq": bool(EntityIdTlv(_oct(a, "a")) == EntityIdTlv(_oct(a, "b")))}
 
 
 def op_tlv_check_type(a):
-    _build(a["held"]).check_type(_enum(TlvType, a["type"]))
+    _build(a["held"]).check_type(_arg(TlvType, a, "type"))
     return {}
 
 
 def op_tlv_status_to_int(a):
-    return {"nibble": int(map_enum_status_code_to_int(_member(FilestoreResponseStatusCode, a["status"])))}
+    return {"nibble": int(map_enum_status_code_to_int(_arg_member(FilestoreResponseStatusCode, a, "status")))}
 
 
 def op_tlv_status_to_action(a):
-    ac, st = map_enum_status_code_to_action_status_code(_member(FilestoreResponseStatusCode, a["status"]))
+    ac, st = map_enum_status_code_to_action_status_code(_arg_member(FilestoreResponseStatusCode, a, "status"))
     return {"action": _code(FilestoreActionCode, ac), "nibble": int(st)}
 
 
 def op_tlv_status_from_int(a):
-    return {"status": _code(FilestoreResponseStatusCode, map_int_status_code_to_enum(_member(FilestoreActionCode, a["action"]), a["status"]))}
+    return {"status": _code(FilestoreResponseStatusCode, map_int_status_code_to_enum(_arg_member(FilestoreActionCode, a, "action"), a["status"]))}
 
 
 def op_tlv_utf8(a):
@@ -537,6 +567,61 @@ def fs_fits(action: int, first: bytes, second: bytes, msg=None) -> bool:
     return n <= 255
 
 
+# ---------------------------------------------------------------- forms the UNCHANGED library accepts, per op argument
+# (established on /repo 066f1b2: every enum-valued argument is used arithmetically / compared with `!=` / `in [members]`, so
+# the member, the plain int and a member of a foreign IntEnum behave alike; every octet argument is measured with len() and
+# copied with extend() / sliced, so bytes and bytearray behave alike. memoryview is NOT generated: no signature names it, and
+# the filestore classes refuse it today - `.decode()` of the file-name LVs)
+_T, _O = core.CODE_FORMS, core.OCTET_FORMS
+_GENERIC_SPEC = {"type": _T, "type_via": ("ctor", "setter"), "value": _O}
+_HELD_SPEC = {"generic": _GENERIC_SPEC, "entity_id": {"value": _O}, "flow_label": {"value": _O}, "msg_to_user": {"value": _O},
+              "fault_handler": {"cc": _T, "hc": _T}, "fs_request": {"action": _T},
+              "fs_response": {"action": _T, "status": _T, "msg": _O}}
+# op -> (share of the generated cases of that op that are repeated once with drawn forms, top-level spec, nested keys)
+_FORM_SPEC = {
+    "lv_new": (0.5, {"value": _O}, ()), "lv_pack": (0.3, {"value": _O}, ()), "lv_unpack": (0.02, {"raw": _O}, ()),
+    "tlv_new": (0.5, _GENERIC_SPEC, ()), "tlv_pack": (0.5, _GENERIC_SPEC, ()), "tlv_unpack": (0.02, {"raw": _O}, ()),
+    "tlv_w_pack": (0.3, {"value": _O}, ()), "tlv_w_unpack": (0.03, {"raw": _O}, ()), "tlv_w_from_tlv": (0.3, _GENERIC_SPEC, ()),
+    "tlv_msg_reserved": (0.3, {"value": _O}, ()),
+    "tlv_fh_pack": (1.0, {"cc": _T, "hc": _T}, ()), "tlv_fh_unpack": (0.05, {"raw": _O}, ()),
+    "tlv_fh_from_tlv": (0.5, _GENERIC_SPEC, ()),
+    "tlv_fsreq_len": (0.15, {"action": _T}, ()), "tlv_fsreq_pack": (0.2, {"action": _T}, ()),
+    "tlv_fsreq_unpack": (0.02, {"raw": _O}, ()), "tlv_fsreq_from_tlv": (0.04, _GENERIC_SPEC, ()),
+    "tlv_fsresp_len": (0.15, {"action": _T, "status": _T, "msg": _O}, ()),
+    "tlv_fsresp_pack": (0.2, {"action": _T, "status": _T, "msg": _O}, ()),
+    "tlv_fsresp_unpack": (0.02, {"raw": _O}, ()), "tlv_fsresp_from_tlv": (0.04, _GENERIC_SPEC, ()),
+    "tlv_holder": (0.25, {}, ("held",)), "tlv_any": (0.2, {}, ("held",)), "tlv_eq": (0.3, {}, ("a", "b")),
+    "tlv_entity_eq": (0.5, {"a": _O, "b": _O}, ()), "tlv_check_type": (0.08, {"type": _T}, ("held",)),
+    "tlv_status_to_int": (1.0, {"status": _T}, ()), "tlv_status_to_action": (1.0, {"status": _T}, ()),
+    "tlv_status_from_int": (1.0, {"action": _T}, ()),
+}
+
+
+def _form_variant(c: Case, frng: random.Random):
+    """the case once more, its arguments in forms drawn from the tables above (None: not this time / nothing to vary)"""
+    spec = _FORM_SPEC.get(c.op["op"])
+    if spec is None or frng.random() >= spec[0] or "forms" in c.op:
+        return None
+    share, top, nested_keys = spec
+    nested = {}
+    for k in nested_keys:
+        h = c.op.get(k)
+        if isinstance(h, dict) and "forms" not in h:
+            nested[k] = core.draw_forms(frng, _HELD_SPEC.get(h.get("kind"), {}), force=False)
+    forms = core.draw_forms(frng, top, force=not any(nested.values()))
+    if not forms and not any(nested.values()):
+        k = frng.choice(list(nested)) if nested else None
+        if k is None:
+            return None
+        nested[k] = core.draw_forms(frng, _HELD_SPEC.get(c.op[k].get("kind"), {}))
+    return core.case_with_forms(c, forms, nested)
+
+
+_FROM_TLV_OP = {"entity_id": ("tlv_w_from_tlv", {"cls": "entity_id"}), "flow_label": ("tlv_w_from_tlv", {"cls": "flow_label"}),
+                "msg_to_user": ("tlv_w_from_tlv", {"cls": "msg_to_user"}), "fault_handler": ("tlv_fh_from_tlv", {}),
+                "fs_request": ("tlv_fsreq_from_tlv", {}), "fs_response": ("tlv_fsresp_from_tlv", {})}
+
+
 class C08(Prop):
     id = "C08"
     title = "CFDP TLV and LV items"
@@ -545,6 +630,8 @@ class C08(Prop):
                        "through the generic and every concrete decoder; every (concrete class, TLV type) pair through unpack, "
                        "from_tlv and TlvHolder.to_*; all 256 first value octets (action x status nibble) of filestore request "
                        "and response; all 256 fault-handler value octets; every status-code member through the three helpers; "
+                       "every (concrete class, TLV type) pair again with the type of the generic TLV given as plain int / member of a foreign "
+                       "IntEnum / member, by constructor and through the tlv_type setter, through from_tlv and TlvHolder.to_* (case key 'forms'); "
                        "UTF-8 acceptance: all 1-octet strings, all 2-octet strings with a lead octet >= 0x70 (all 65 536 in the thorough tier), all lead x second-octet pairs of the 3/4-octet forms (thorough: all 3-octet strings with lead E0, E1, ED, EF)")
     trusted_base = ["file names are modelled by their UTF-8 octets; bytes.decode() acceptance is the model's utf8Valid, "
                     "tied to CPython's strict decoder by the tlv_utf8 op (exhaustive on 1-2 octets, structured beyond)",
@@ -552,7 +639,9 @@ class C08(Prop):
                     "{'refused':'type'} on both sides (DESIGN section 8 interpretation of 'type-mismatch error')"]
     assumptions = ["TLV types, action codes, status codes, condition/handler codes are passed as the members of the library's enums "
                    "that carry the STANDARD NAME of the code (core.std_member / core.STD_NAMES; codes without a standard name as the "
-                   "member of that value or the plain int), and decoded codes are compared with the members of those names; "
+                   "member of that value or the plain int), and decoded codes are compared with the members of those names; cases "
+                   "with a 'forms' key pass the same codes as plain ints / members of a foreign IntEnum class and the same octets as "
+                   "bytearray (the forms the library accepts on the unchanged tree; memoryview is not among them); "
                    "file names are str values that str.encode() accepts (no lone surrogates)"]
 
     def impl_ops(self):
@@ -622,6 +711,90 @@ class C08(Prop):
 
     # ------------------------------------------------------------------------------------------
     def cases(self, rng: random.Random, tier: str) -> Iterator[Case]:
+        """the generated stream (unchanged), followed by the TYPE-COERCION dimension: a share of those cases once more with
+        their arguments in other forms (own random stream: the stream above is the same with and without it), and the
+        exhaustive (concrete class x TLV type x form x route) table"""
+        frng = core.forms_rng(rng)
+        later: List[Case] = []
+        for c in self.base_cases(rng, tier):
+            yield c
+            v = _form_variant(c, frng)
+            if v is not None:
+                later.append(v)
+        yield from later
+        yield from self.gen_forms(frng, 30 if tier == "thorough" else 3)
+
+    # -- every concrete class x every TLV type x every form of the type / way of supplying it, through every route ----------
+    def gen_forms(self, frng, R):
+        kinds = list(CLS_TYPE)
+        kind_of = {v: k for k, v in CLS_TYPE.items()}
+        combos = [(tf, via) for tf in _T for via in ("ctor", "setter") if (tf, via) != ("member", "ctor")]
+        for to in kinds:
+            own = CLS_TYPE[to]
+            op, extra = _FROM_TLV_OP[to]
+            for t in TLV_TYPES:
+                exp = "valid" if t == own else "invalid"
+                for tf, via in combos:
+                    for i in range(R):
+                        v = generic_value_for(kind_of[t], frng)
+                        forms = {"type": tf, "type_via": via}
+                        if (i + len(v)) % 2:
+                            forms["value"] = "bytearray"
+                        forms = {k: x for k, x in forms.items() if x not in ("member", "ctor")}
+                        yield Case({"op": op, **extra, "type": t, "value": hx(v), "forms": forms}, exp, errclass=True,
+                                   tag="forms-from-tlv-own" if t == own else "forms-from-tlv-foreign")
+                        held = {"kind": "generic", "type": t, "value": hx(v), "forms": forms}
+                        yield Case({"op": "tlv_holder", "held": held, "to": to}, exp, errclass=True,
+                                   tag="forms-holder-own" if t == own else "forms-holder-foreign")
+        # the generic TLV itself: octets, views, equality with the member-built twin and with the concrete twin, check_type
+        for t in TLV_TYPES:
+            for tf, via in combos:
+                forms = {k: x for k, x in (("type", tf), ("type_via", via)) if x not in ("member", "ctor")}
+                for n in (0, 5, 255):
+                    v = hx(rbytes(frng, n))
+                    g = {"kind": "generic", "type": t, "value": v, "forms": forms}
+                    twin = {"kind": "generic", "type": t, "value": v}
+                    yield Case({"op": "tlv_pack", "type": t, "value": v, "forms": forms}, "valid", tag="forms-generic")
+                    yield Case({"op": "tlv_new", "type": t, "value": v, "forms": forms}, "valid", tag="forms-generic")
+                    yield Case({"op": "tlv_any", "held": g}, "valid", tag="forms-generic")
+                    yield Case({"op": "tlv_eq", "a": g, "b": twin}, "valid", tag="forms-eq-twin")
+                    yield Case({"op": "tlv_eq", "a": twin, "b": g}, "valid", tag="forms-eq-twin")
+                    other = frng.choice([x for x in TLV_TYPES if x != t])
+                    yield Case({"op": "tlv_eq", "a": g, "b": {**twin, "type": other}}, "valid", tag="forms-eq-other-type")
+                    yield Case({"op": "tlv_eq", "a": {**g, "type": other}, "b": g}, "valid", tag="forms-eq-other-type")
+                    k = kind_of[t]
+                    if k in ("flow_label", "msg_to_user"):
+                        yield Case({"op": "tlv_eq", "a": {"kind": k, "value": v}, "b": g}, "valid", tag="forms-eq-concrete-twin")
+                        yield Case({"op": "tlv_eq", "a": g, "b": {"kind": k, "value": v}}, "valid", tag="forms-eq-concrete-twin")
+                    for tt in TLV_TYPES:
+                        yield Case({"op": "tlv_check_type", "held": g, "type": tt}, "valid" if tt == t else "invalid",
+                                   errclass=True, tag="forms-check-type")
+        for k in kinds:
+            for t in TLV_TYPES:
+                for tf in ("int", "other"):
+                    yield Case({"op": "tlv_check_type", "held": held_concrete(k, frng), "type": t, "forms": {"type": tf}},
+                               "valid" if t == CLS_TYPE[k] else "invalid", errclass=True, tag="forms-check-type")
+        # every code of every concrete constructor as int / foreign member
+        for tf in ("int", "other"):
+            for cc in CC_MEMBERS:
+                for hc in HC_MEMBERS:
+                    f = {"cc": tf, "hc": frng.choice(_T)} if (cc + hc) % 2 else {"cc": frng.choice(_T), "hc": tf}
+                    f = {k: x for k, x in f.items() if x != "member"}
+                    yield Case({"op": "tlv_fh_pack", "cc": cc, "hc": hc, "forms": f}, "valid", tag="forms-all-members")
+            for a in ACTIONS:
+                for _ in range(R):
+                    f1, f2 = rand_utf8(frng, 20), rand_utf8(frng, 20)
+                    yield Case({"op": "tlv_fsreq_pack", "action": a, "first": hx(f1), "second": hx(f2), "forms": {"action": tf}},
+                               "valid", tag="forms-all-members")
+            for st in STATUS_NAT:
+                f1, f2, m = rand_utf8(frng, 20), rand_utf8(frng, 20), rbytes(frng, frng.randint(0, 9))
+                f = {"action": frng.choice(_T), "status": tf, "msg": frng.choice(_O)}
+                f = {k: x for k, x in f.items() if x not in ("member", "bytes")}
+                opd = {"action": st >> 4, "status": st, "first": hx(f1), "second": hx(f2), "msg": hx(m)}
+                yield Case({"op": "tlv_fsresp_pack", **opd, "forms": f}, "valid", tag="forms-all-members")
+                yield Case({"op": "tlv_any", "held": {"kind": "fs_response", **opd, "forms": f}}, "valid", tag="forms-all-members")
+
+    def base_cases(self, rng: random.Random, tier: str) -> Iterator[Case]:
         thorough = tier == "thorough"
         R = 40 if thorough else 4
         yield from self.gen_lv(rng, R)
